@@ -110,9 +110,11 @@ def build_ls(name):
     return build
 
 
+REPLAY_C10 = {"src": "replay/c10.cc", "argv": lambda inputs, fl: [["battery"]]}
+
 UNITS = [
     Unit("c10_ls_" + nm, build_ls(nm), "h_ls", enforce=LS_OPS[nm][1].split("(")[0].split()[-1], timeout=120,
-         must_have=[r"postcondition", r"celer_expect"], checks=["--bounds-check", "--pointer-check"],
+         must_have=[r"postcondition", r"celer_expect"], checks=["--bounds-check", "--pointer-check"], replay=REPLAY_C10,
          note="LogicStack::%s against the abstract stack view, all 2^64 x 65 states (loop-free, complete)" % nm)
     for nm in LS_OPS
 ]
@@ -227,7 +229,7 @@ void h_le(void)
 UNITS += [
     Unit("c10_logic_eval", build_logic_eval, "h_le", enforce="LE_call", replace=["LS_push", "LS_apply_or", "LS_apply_and", "LS_apply_not", "LS_top"], loop_contracts=True, timeout=600, object_bits=10,
          must_have=[r"LE_call.postcondition", r"loop_invariant_step", r"LS_push.precondition", r"LS_apply_and.precondition", r"celer_ensure", r"celer_unreachable"],
-         checks=["--bounds-check", "--pointer-check"],
+         checks=["--bounds-check", "--pointer-check"], replay=REPLAY_C10,
          assumptions=["well-formedness of the postfix string is used through per-token instances (ghost assume) of the depth-profile precondition",
                       "Sense values are proper bools (0/1)"],
          note="LogicEvaluator::operator(): for every well-formed postfix string of any length <= 4096 with depth <= 64: every LogicStack precondition holds at its call site, the default branch is unreachable, the stack ends with one element and the result equals the array-stack evaluation (lock-step loop invariant over the abstract stack view)"),
@@ -336,12 +338,12 @@ void h_infix(void)
 UNITS += [
     Unit("c10_infix_n9", build_infix(9), "h_infix", unwind=11, timeout=900,
          bounded="every well-formed infix string of <= 9 tokens over 3 faces, all sense assignments (symbolic)",
-         must_have=[r"infix.equiv", r"celer_assert", r"celer_expect", r"unwinding assertion"], checks=["--bounds-check", "--pointer-check"],
+         must_have=[r"infix.equiv", r"celer_assert", r"celer_expect", r"unwinding assertion"], checks=["--bounds-check", "--pointer-check"], replay=REPLAY_C10,
          assumptions=["infix grammar as emitted by InfixStringBuilder: one operator kind per parenthesised group, negation of faces only"],
          note="InfixEvaluator (operator() and short_circuit) == plain infix evaluation (bounded)"),
     Unit("c10_infix_n13", build_infix(13), "h_infix", unwind=15, timeout=7200, tier="thorough",
          bounded="every well-formed infix string of <= 13 tokens over 3 faces (three nesting levels with content)",
-         must_have=[r"infix.equiv", r"unwinding assertion"], checks=["--bounds-check", "--pointer-check"],
+         must_have=[r"infix.equiv", r"unwinding assertion"], checks=["--bounds-check", "--pointer-check"], replay=REPLAY_C10,
          assumptions=["infix grammar as emitted by InfixStringBuilder"],
          note="InfixEvaluator == plain infix evaluation (bounded, thorough)"),
 ]
